@@ -17,6 +17,22 @@ the property theorems in `Props/C10.lean`.
 import CtyModel.Marks
 namespace CtyModel
 
+namespace Payload
+/-! Marker layers as cty's constructors build them: never an empty mark set, never a marker
+directly inside a marker (`Mark`/`WithMarks` merge into the existing layer).  A
+representation invariant of Go values that some C10 theorems assume (`C10.ArgsWF`); the
+driver checks it on every value the harness sends (`fn.*` ops answer `marker-wf-violation`). -/
+mutual
+def markerWF : Payload → Bool
+  | .marked ms r => !ms.isEmpty && !r.isMarked && markerWF r
+  | .seq vs | .smap _ vs | .sset _ vs => markerWFL vs
+  | _ => true
+def markerWFL : List Payload → Bool
+  | [] => true
+  | v :: vs => markerWF v && markerWFL vs
+end
+end Payload
+
 namespace Fn
 
 /-- `function.Parameter` (Name and Description play no role in the protocol). -/
@@ -293,6 +309,23 @@ def call (spec : Spec) (tf : TypeFn) (impl : ImplFn) (args : List Value) :
     match spec.refine with
     | some r => if !dynTypeArgs then deferredRefine r o else o
     | none => o
+
+/-- `Function.Proxy()(args...)`: `return f.Call(args)` -/
+def proxy (spec : Spec) (tf : TypeFn) (impl : ImplFn) (args : List Value) : Out Value × List Event :=
+  call spec tf impl args
+
+/-- `Function.WithNewDescriptions(funcDesc, paramDescs)`: a copy of the spec with the
+descriptions replaced.  Descriptions play no role in the protocol (the model's `Param` has
+none), so the new function has the same `Spec`; what is modelled is the documented panic
+when `len(paramDescs)` is neither the number of positional parameters nor (for a variadic
+function) that number plus one. -/
+def Spec.withNewDescriptions (spec : Spec) (nDescs : Nat) : Out Spec :=
+  match spec.varParam with
+  | some _ =>
+    if nDescs != spec.params.length + 1 && nDescs != spec.params.length then .panic "paramDescs length"
+    else .ok spec
+  | none =>
+    if nDescs != spec.params.length then .panic "paramDescs length" else .ok spec
 
 /-- The same call with the `RefineResult` declaration removed: what `Call`
 returns before the deferred refinement runs. -/
